@@ -185,7 +185,7 @@ Lemma fetch_vals_facts E w i it rd pv r : vcs E w -> valid_pair E i it ->
   same_frame w w0 /\ w_ps w0 = w_ps w /\ vcs E w0 /\
   item_step rd pv r it (snd (fetch_vals E w i it rd r)) = item_step rd pv r it (src_vals E it).
 Proof.
-  intros Hv Hval. unfold fetch_vals, src_vals. destruct (i_tr it) as [k v|m| |d| |l|l|l|k v|p0] eqn:Et;
+  intros Hv Hval. unfold fetch_vals, src_vals. destruct (i_tr it) as [k v|m| |d| |l|l|l|k v|p0|pp] eqn:Et;
     try (simpl; split; [apply same_frame_refl|]; split; [reflexivity|]; split; [exact Hv | reflexivity]).
   destruct (wants_values rd r it) eqn:Ew.
   - unfold get_values. destruct (w_vc w i) as [v|] eqn:Ec.
@@ -216,6 +216,7 @@ Qed.
 Lemma apply_items_frame E : forall its w L r, same_frame w (fst (apply_items E w L r its)).
 Proof.
   induction its as [|[i it] its IH]; intros w L r; simpl; [apply same_frame_refl|].
+  destruct (is_post it); [apply IH|].
   destruct (fetch_vals_frame E w i it (rd_owner w (w_owner w i)) r) as [F _].
   destruct (fetch_vals E w i it (rd_owner w (w_owner w i)) r) as [w0 vals]. simpl in F.
   destruct (is_res (item_step (rd_owner w (w_owner w i)) (rd_vars w (w_owner w i)) r it vals)) as [r'|e]; simpl.
@@ -228,6 +229,7 @@ Lemma apply_items_vcs E : forall its w L r, vcs E w ->
   (forall p, In p its -> valid_pair E (fst p) (snd p)) -> vcs E (fst (apply_items E w L r its)).
 Proof.
   induction its as [|[i it] its IH]; intros w L r Hv Hval; simpl; [exact Hv|].
+  destruct (is_post it); [apply IH; [exact Hv | intros p Hp; apply Hval; right; exact Hp]|].
   destruct (fetch_vals_facts E w i it (rd_owner w (w_owner w i)) [] r Hv (Hval (i, it) (or_introl eq_refl))) as [_ [_ [Hv0 _]]].
   destruct (fetch_vals E w i it (rd_owner w (w_owner w i)) r) as [w0 vals]. simpl in Hv0.
   destruct (is_res (item_step (rd_owner w (w_owner w i)) (rd_vars w (w_owner w i)) r it vals)) as [r'|e]; simpl.
@@ -245,6 +247,8 @@ Lemma apply_items_ideal E V : forall its w L r,
   w_ps (fst (apply_items E w L r its)) L = fst (ideal_items E V (w_ps w L) r (map snd its)).
 Proof.
   induction its as [|[i it] its IH]; intros w L r Hown Hv Hpv Hval; simpl; [split; reflexivity|].
+  destruct (is_post it);
+    [apply IH; [intros p Hp; apply Hown; right; exact Hp | exact Hv | exact Hpv | intros p Hp; apply Hval; right; exact Hp]|].
   pose proof (Hown (i, it) (or_introl eq_refl)) as Hi. simpl in Hi. rewrite Hi. simpl. rewrite Hpv.
   destruct (fetch_vals_facts E w i it (w_ps w L) V r Hv (Hval (i, it) (or_introl eq_refl))) as [[_ [_ [Fo [_ [_ Fpv]]]]] [Fps [Hv0 Hst]]].
   destruct (fetch_vals E w i it (w_ps w L) r) as [w0 vals]. simpl in Fo, Fpv, Fps, Hv0, Hst. rewrite Hst.
@@ -301,17 +305,148 @@ Qed.
 Definition owned (E : env) (w : world) (bk : backend) (L : nat) (f : N) : Prop :=
   forall p, In p (pipe_pairs E (b_cls bk) (b_user bk) f) -> w_owner w (fst p) = Some L.
 
+(* ---------- query postprocessing ---------- *)
+(* between operations every nested pipeline object of a `nest` item is untouched: no state, nothing applied *)
+Definition nest0 (w : world) : Prop := forall i, w_nest w i = ([], []).
+Lemma nest0_ext w w' : w_nest w' = w_nest w -> nest0 w -> nest0 w'.
+Proof. unfold nest0. intros ->. tauto. Qed.
+Lemma wr_owner_nest w o f : w_nest (wr_owner w o f) = w_nest w.
+Proof. destruct o; reflexivity. Qed.
+
+Lemma post_items_frame : forall its w L r q,
+  same_frame w (fst (post_items w L r q its)) /\ w_vc (fst (post_items w L r q its)) = w_vc w
+  /\ w_hints (fst (post_items w L r q its)) = w_hints w.
+Proof.
+  induction its as [|[i it] its IH]; intros w L r q; simpl; [split; [apply same_frame_refl | split; reflexivity]|].
+  destruct (i_tr it) as [| | | | | | | | | |p]; try apply IH.
+  destruct (eval_rcond (rd_owner w (w_owner w i)) r (i_cond it)); [|apply IH].
+  destruct p as [p0|l].
+  - destruct (IH (set_ps w L (add_ids [i_id it] (w_ps w L))) L r (post0_apply (ps_state (rd_owner w (w_owner w i))) p0 q)) as [A [B C]].
+    split; [eapply same_frame_trans; [apply same_frame_set_ps | exact A] | split; [rewrite B | rewrite C]; reflexivity].
+  - destruct (nest_run (fst (w_nest w i)) r q l (snd (w_nest w i))) as [q' nids].
+    set (w1 := set_nest (wr_owner w (w_owner w i) (add_ids nids)) i (fst (w_nest w i), [])).
+    destruct (IH (set_ps w1 L (add_ids [i_id it] (w_ps w1 L))) L r q') as [A [B C]].
+    assert (F1 : same_frame w w1).
+    { unfold w1. eapply same_frame_trans; [apply wr_owner_frame | repeat split]. }
+    split; [eapply same_frame_trans; [exact F1|]; eapply same_frame_trans; [apply same_frame_set_ps | exact A]|].
+    split; [rewrite B | rewrite C]; unfold w1; simpl; destruct (w_owner w i); reflexivity.
+Qed.
+
+Lemma post_items_nest0 : forall its w L r q, nest0 w -> nest0 (fst (post_items w L r q its)).
+Proof.
+  induction its as [|[i it] its IH]; intros w L r q H; simpl; [exact H|].
+  destruct (i_tr it) as [| | | | | | | | | |p]; try (apply IH; exact H).
+  destruct (eval_rcond (rd_owner w (w_owner w i)) r (i_cond it)); [|apply IH; exact H].
+  destruct p as [p0|l].
+  - apply IH. exact H.
+  - destruct (nest_run (fst (w_nest w i)) r q l (snd (w_nest w i))) as [q' nids]. apply IH.
+    intros j. simpl. destruct (iid_eqb j i); [rewrite (H i); reflexivity|]. rewrite wr_owner_nest. apply H.
+Qed.
+
+(* when every entry points to the pipeline being applied and the nested pipelines are untouched, postprocessing is the
+   specification's postprocessing on that pipeline's own fields *)
+Lemma post_items_ideal : forall its w L r q,
+  (forall p, In p its -> w_owner w (fst p) = Some L) -> nest0 w ->
+  snd (post_items w L r q its) = snd (ideal_post (w_ps w L) r q (map snd its)) /\
+  w_ps (fst (post_items w L r q its)) L = fst (ideal_post (w_ps w L) r q (map snd its)).
+Proof.
+  induction its as [|[i it] its IH]; intros w L r q Hown Hn; simpl; [split; reflexivity|].
+  assert (Hown' : forall p, In p its -> w_owner w (fst p) = Some L) by (intros p Hp; apply Hown; right; exact Hp).
+  destruct (i_tr it) as [| | | | | | | | | |p]; try (apply IH; assumption).
+  pose proof (Hown (i, it) (or_introl eq_refl)) as Hi. simpl in Hi. rewrite Hi. simpl.
+  destruct (eval_rcond (w_ps w L) r (i_cond it)); [|apply IH; assumption].
+  destruct p as [p0|l].
+  - set (w1 := set_ps w L (add_ids [i_id it] (w_ps w L))).
+    assert (Hps : w_ps w1 L = add_ids [i_id it] (w_ps w L)) by (unfold w1; simpl; rewrite Nat.eqb_refl; reflexivity).
+    destruct (IH w1 L r (post0_apply (ps_state (w_ps w L)) p0 q) Hown' Hn) as [H1 H2].
+    rewrite Hps in H1, H2. split; assumption.
+  - rewrite (Hn i). simpl.
+    destruct (nest_run [] r q l []) as [q' nids].
+    set (w0 := set_nest (set_ps w L (add_ids nids (w_ps w L))) i ([], [])).
+    set (w1 := set_ps w0 L (add_ids [i_id it] (w_ps w0 L))).
+    assert (Hps : w_ps w1 L = add_ids [i_id it] (add_ids nids (w_ps w L))).
+    { unfold w1, w0. simpl. rewrite !Nat.eqb_refl. reflexivity. }
+    assert (Hn1 : nest0 w1).
+    { intros j. unfold w1, w0. simpl. destruct (iid_eqb j i); [reflexivity | apply Hn]. }
+    destruct (IH w1 L r q' Hown' Hn1) as [H1 H2]. rewrite Hps in H1, H2. split; assumption.
+Qed.
+
+Lemma post_all_frame its L r : forall qs w,
+  same_frame w (fst (post_all w L r qs its)) /\ w_vc (fst (post_all w L r qs its)) = w_vc w
+  /\ w_hints (fst (post_all w L r qs its)) = w_hints w.
+Proof.
+  induction qs as [|q qs IH]; intros w; simpl; [split; [apply same_frame_refl | split; reflexivity]|].
+  destruct (post_items_frame its w L r q) as [A [B C]]. destruct (post_items w L r q its) as [w1 q1]. simpl in A, B, C.
+  destruct (IH w1) as [A2 [B2 C2]]. destruct (post_all w1 L r qs its) as [w2 l]. simpl in *.
+  split; [eapply same_frame_trans; eassumption | split; congruence].
+Qed.
+Lemma post_all_nest0 its L r : forall qs w, nest0 w -> nest0 (fst (post_all w L r qs its)).
+Proof.
+  induction qs as [|q qs IH]; intros w H; simpl; [exact H|].
+  pose proof (post_items_nest0 its w L r q H) as H1. destruct (post_items w L r q its) as [w1 q1]. simpl in H1.
+  specialize (IH w1 H1). destruct (post_all w1 L r qs its) as [w2 l]. exact IH.
+Qed.
+Lemma post_all_ideal its L r : forall qs w,
+  (forall p, In p its -> w_owner w (fst p) = Some L) -> nest0 w ->
+  snd (post_all w L r qs its) = snd (ideal_post_all (w_ps w L) r qs (map snd its)) /\
+  w_ps (fst (post_all w L r qs its)) L = fst (ideal_post_all (w_ps w L) r qs (map snd its)).
+Proof.
+  induction qs as [|q qs IH]; intros w Hown Hn; simpl; [split; reflexivity|].
+  destruct (post_items_ideal its w L r q Hown Hn) as [H1 H2].
+  pose proof (post_items_nest0 its w L r q Hn) as Hn1.
+  destruct (post_items_frame its w L r q) as [[_ [_ [Fo _]]] _].
+  destruct (post_items w L r q its) as [w1 q1]. destruct (ideal_post (w_ps w L) r q (map snd its)) as [ps1 q1'].
+  simpl in *. subst q1' ps1.
+  assert (Hown1 : forall p, In p its -> w_owner w1 (fst p) = Some L) by (intros p Hp; rewrite Fo; apply Hown; exact Hp).
+  destruct (IH w1 Hown1 Hn1) as [H3 H4].
+  destruct (post_all w1 L r qs its) as [w2 l]. destruct (ideal_post_all (w_ps w1 L) r qs (map snd its)) as [ps2 l'].
+  simpl in *. subst l' ps2. split; reflexivity.
+Qed.
+
+(* nothing but postprocessing touches the nested pipelines *)
+Lemma cache_parse_nest E w k : w_nest (fst (cache_parse E w k)) = w_nest w.
+Proof.
+  unfold cache_parse. destruct (mem c_pipe k); [reflexivity|].
+  destruct (lookup k (w_cache w)); [reflexivity|]. destruct (e_parse E k); reflexivity.
+Qed.
+Lemma conv_conds_nest E cls dets fin : forall ks w, w_nest (fst (conv_conds E cls dets fin w ks)) = w_nest w.
+Proof.
+  induction ks as [|k ks IH]; intros w; simpl; [reflexivity|].
+  pose proof (cache_parse_nest E w k) as Hc. destruct (cache_parse E w k) as [w1 pt]. simpl in Hc.
+  destruct (obind pt (resolve dets)) as [ct|e|e]; simpl; try exact Hc.
+  destruct (render (e_ne E cls) cls false ct (w_tpl w1)) as [tp q].
+  destruct (obind q fin) as [s|e|e]; simpl; try exact Hc.
+  specialize (IH (set_tplw w1 tp)). destruct (conv_conds E cls dets fin (set_tplw w1 tp) ks) as [w3 r]. simpl in *.
+  rewrite IH. exact Hc.
+Qed.
+Lemma fetch_vals_nest E w i it rd r : w_nest (fst (fetch_vals E w i it rd r)) = w_nest w.
+Proof.
+  unfold fetch_vals. destruct (i_tr it); try reflexivity. destruct (wants_values rd r it); [|reflexivity].
+  unfold get_values. destruct (w_vc w i); [reflexivity|]. destruct (e_src E d); reflexivity.
+Qed.
+Lemma apply_items_nest E : forall its w L r, w_nest (fst (apply_items E w L r its)) = w_nest w.
+Proof.
+  induction its as [|[i it] its IH]; intros w L r; simpl; [reflexivity|].
+  destruct (is_post it); [apply IH|].
+  pose proof (fetch_vals_nest E w i it (rd_owner w (w_owner w i)) r) as Hf.
+  destruct (fetch_vals E w i it (rd_owner w (w_owner w i)) r) as [w0 vals]. simpl in Hf.
+  destruct (is_res (item_step (rd_owner w (w_owner w i)) (rd_vars w (w_owner w i)) r it vals)) as [r'|e]; simpl.
+  - rewrite IH. simpl. rewrite wr_owner_nest. exact Hf.
+  - rewrite wr_owner_nest. exact Hf.
+Qed.
+
 Lemma lasts_ext E w w' : w_bks w' = w_bks w -> w_next w' = w_next w -> w_pvars w' = w_pvars w -> lasts E w -> lasts E w'.
 Proof. intros Hb Hn Hp H b bk L f. rewrite Hb, Hn, Hp. apply H. Qed.
 
-Lemma conv_with_ideal E w L lfmt bk fmt r : wf E w -> owned E w bk L lfmt ->
+Lemma conv_with_ideal E w L lfmt bk fmt r : wf E w -> nest0 w -> owned E w bk L lfmt ->
   w_pvars w L = init_vars E (b_cls bk) (b_user bk) (b_opts bk) lfmt ->
   let w' := fst (conv_with E w L lfmt bk fmt r) in
   snd (conv_with E w L lfmt bk fmt r) = snd (ideal_rule E (b_cls bk) (b_user bk) (b_opts bk) lfmt fmt r)
   /\ w_ps w' L = fst (ideal_rule E (b_cls bk) (b_user bk) (b_opts bk) lfmt fmt r)
-  /\ wf E w' /\ w_owner w' = w_owner w /\ w_bks w' = w_bks w /\ w_next w' = w_next w /\ w_pvars w' = w_pvars w.
+  /\ wf E w' /\ w_owner w' = w_owner w /\ w_bks w' = w_bks w /\ w_next w' = w_next w /\ w_pvars w' = w_pvars w
+  /\ nest0 w'.
 Proof.
-  intros [[Ht Hc] [Hv Hl]] Hown Hpv. unfold conv_with, ideal_rule.
+  intros [[Ht Hc] [Hv Hl]] Hn Hown Hpv. unfold conv_with, ideal_rule.
   set (w2 := set_ps w L ps0).
   assert (Hown2 : forall p, In p (pipe_pairs E (b_cls bk) (b_user bk) lfmt) -> w_owner w2 (fst p) = Some L)
     by (intros p Hp; apply Hown; exact Hp).
@@ -320,6 +455,7 @@ Proof.
   destruct (apply_items_ideal E _ _ w2 L r Hown2 Hv2 Hpv2 (pipe_pairs_valid E _ _ _)) as [H1 H2].
   pose proof (apply_items_frame E (pipe_pairs E (b_cls bk) (b_user bk) lfmt) w2 L r) as [F1 [F2 [F3 [F4 [F5 F6]]]]].
   pose proof (apply_items_vcs E (pipe_pairs E (b_cls bk) (b_user bk) lfmt) w2 L r Hv2 (pipe_pairs_valid E _ _ _)) as Hv3.
+  pose proof (apply_items_nest E (pipe_pairs E (b_cls bk) (b_user bk) lfmt) w2 L r) as Hn3.
   rewrite pipe_pairs_defs in H1, H2.
   assert (Hps2 : w_ps w2 L = ps0) by (unfold w2; simpl; rewrite Nat.eqb_refl; reflexivity).
   rewrite Hps2 in H1, H2.
@@ -327,19 +463,42 @@ Proof.
   destruct (ideal_items E (init_vars E (b_cls bk) (b_user bk) (b_opts bk) lfmt) ps0 r (pipe_defs E (b_cls bk) (b_user bk) lfmt)) as [ps res'].
   simpl in *. subst res' ps.
   assert (Hl3 : lasts E w3) by (apply (lasts_ext E w w3 F4 F5 F6 Hl)).
+  assert (Hn3' : nest0 w3) by (apply (nest0_ext w w3 Hn3 Hn)).
   destruct res as [r'|e]; simpl.
   - assert (Hwf3 : wf0 E w3) by (split; [rewrite F1; exact Ht | rewrite F2; exact Hc]).
     destruct (conv_conds_ideal E (b_cls bk) (r_dets r') (finish_query E (b_cls bk) (ps_state (w_ps w3 L))) (r_conds r') w3 Hwf3) as [Hq [Hwf4 [Ho4 [Hps4 [Hb4 [Hn4 [Hv4 Hpv4]]]]]]].
+    pose proof (conv_conds_nest E (b_cls bk) (r_dets r') (finish_query E (b_cls bk) (ps_state (w_ps w3 L))) (r_conds r') w3) as Hne4.
     destruct (conv_conds E (b_cls bk) (r_dets r') (finish_query E (b_cls bk) (ps_state (w_ps w3 L))) w3 (r_conds r')) as [w4 qs]. simpl in *. subst qs.
-    split; [reflexivity|]. split; [rewrite Hps4; reflexivity|].
-    split; [split; [exact Hwf4 | split; [eapply vcs_ext; [exact Hv4 | exact Hv3] | apply (lasts_ext E w3 w4 Hb4 Hn4 Hpv4 Hl3)]]|].
-    repeat split; congruence.
+    assert (Hv4' : vcs E w4) by (eapply vcs_ext; [exact Hv4 | exact Hv3]).
+    assert (Hl4 : lasts E w4) by (apply (lasts_ext E w3 w4 Hb4 Hn4 Hpv4 Hl3)).
+    assert (Hn4' : nest0 w4) by (apply (nest0_ext w3 w4 Hne4 Hn3')).
+    destruct (omap (ideal_cond E (e_ne E (b_cls bk)) (r_dets r') (finish_query E (b_cls bk) (ps_state (w_ps w3 L)))) (r_conds r')) as [l|e|e]; simpl.
+    + set (fl := map (finalize fmt (ps_state (w_ps w3 L)) r') l).
+      assert (Hown4 : forall p, In p (pipe_pairs E (b_cls bk) (b_user bk) lfmt) -> w_owner w4 (fst p) = Some L)
+        by (intros p Hp; rewrite Ho4, F3; apply Hown; exact Hp).
+      destruct (post_all_ideal (pipe_pairs E (b_cls bk) (b_user bk) lfmt) L r' fl w4 Hown4 Hn4') as [P1 P2].
+      destruct (post_all_frame (pipe_pairs E (b_cls bk) (b_user bk) lfmt) L r' fl w4) as [[G1 [G2 [G3 [G4 [G5 G6]]]]] [G7 _]].
+      pose proof (post_all_nest0 (pipe_pairs E (b_cls bk) (b_user bk) lfmt) L r' fl w4 Hn4') as Hn5.
+      rewrite pipe_pairs_defs in P1, P2. rewrite Hps4 in P1, P2.
+      destruct (post_all w4 L r' fl (pipe_pairs E (b_cls bk) (b_user bk) lfmt)) as [w5 l'].
+      destruct (ideal_post_all (w_ps w3 L) r' fl (pipe_defs E (b_cls bk) (b_user bk) lfmt)) as [ps2 l2].
+      simpl in *. subst l2 ps2.
+      split; [reflexivity|]. split; [reflexivity|].
+      split; [split; [split; [rewrite G1; apply Hwf4 | rewrite G2; apply Hwf4] |
+                      split; [eapply vcs_ext; [exact G7 | exact Hv4'] | apply (lasts_ext E w4 w5 G4 G5 G6 Hl4)]]|].
+      split; [congruence|]. split; [congruence|]. split; [congruence|]. split; [congruence | exact Hn5].
+    + split; [reflexivity|]. split; [rewrite Hps4; reflexivity|].
+      split; [split; [exact Hwf4 | split; [exact Hv4' | exact Hl4]]|].
+      split; [congruence|]. split; [congruence|]. split; [congruence|]. split; [congruence | exact Hn4'].
+    + split; [reflexivity|]. split; [rewrite Hps4; reflexivity|].
+      split; [split; [exact Hwf4 | split; [exact Hv4' | exact Hl4]]|].
+      split; [congruence|]. split; [congruence|]. split; [congruence|]. split; [congruence | exact Hn4'].
   - split; [reflexivity|]. split; [reflexivity|].
     split; [split; [split; [rewrite F1; exact Ht | rewrite F2; exact Hc] | split; [exact Hv3 | exact Hl3]]|].
-    repeat split; assumption.
+    split; [assumption|]. split; [assumption|]. split; [assumption|]. split; [assumption | exact Hn3'].
 Qed.
 
-(* without any assumption on the owner links the invariant is still kept *)
+(* without any assumption on the owner links the invariants are still kept *)
 Lemma conv_with_wf E w L lfmt bk fmt r : wf E w ->
   let w' := fst (conv_with E w L lfmt bk fmt r) in
   wf E w' /\ w_owner w' = w_owner w /\ w_bks w' = w_bks w /\ w_next w' = w_next w.
@@ -354,9 +513,35 @@ Proof.
   destruct res as [r'|e]; simpl.
   - destruct (conv_conds_ideal E (b_cls bk) (r_dets r') (finish_query E (b_cls bk) (ps_state (w_ps w3 L))) (r_conds r') w3 Hwf3) as [_ [Hwf4 [Ho4 [Hps4 [Hb4 [Hn4 [Hv4 Hpv4]]]]]]].
     destruct (conv_conds E (b_cls bk) (r_dets r') (finish_query E (b_cls bk) (ps_state (w_ps w3 L))) w3 (r_conds r')) as [w4 qs]. simpl in *.
-    split; [split; [exact Hwf4 | split; [eapply vcs_ext; [exact Hv4 | exact Hv3] | apply (lasts_ext E w3 w4 Hb4 Hn4 Hpv4 Hl3)]]|].
-    repeat split; congruence.
+    assert (Hv4' : vcs E w4) by (eapply vcs_ext; [exact Hv4 | exact Hv3]).
+    assert (Hl4 : lasts E w4) by (apply (lasts_ext E w3 w4 Hb4 Hn4 Hpv4 Hl3)).
+    destruct qs as [l|e|e]; simpl.
+    + set (fl := map (finalize fmt (ps_state (w_ps w3 L)) r') l).
+      destruct (post_all_frame (pipe_pairs E (b_cls bk) (b_user bk) lfmt) L r' fl w4) as [[G1 [G2 [G3 [G4 [G5 G6]]]]] [G7 _]].
+      destruct (post_all w4 L r' fl (pipe_pairs E (b_cls bk) (b_user bk) lfmt)) as [w5 l']. simpl in *.
+      split; [split; [split; [rewrite G1; apply Hwf4 | rewrite G2; apply Hwf4] |
+                      split; [eapply vcs_ext; [exact G7 | exact Hv4'] | apply (lasts_ext E w4 w5 G4 G5 G6 Hl4)]]|].
+      split; [congruence|]. split; congruence.
+    + split; [split; [exact Hwf4 | split; [exact Hv4' | exact Hl4]]|]. repeat split; congruence.
+    + split; [split; [exact Hwf4 | split; [exact Hv4' | exact Hl4]]|]. repeat split; congruence.
   - split; [split; [exact Hwf3 | split; [exact Hv3 | exact Hl3]]|]. repeat split; assumption.
+Qed.
+
+(* the nested pipelines are untouched after a conversion, whatever the owner links are *)
+Lemma conv_with_nest0 E w L lfmt bk fmt r : nest0 w -> nest0 (fst (conv_with E w L lfmt bk fmt r)).
+Proof.
+  intros Hn. unfold conv_with.
+  pose proof (apply_items_nest E (pipe_pairs E (b_cls bk) (b_user bk) lfmt) (set_ps w L ps0) L r) as Hn3.
+  destruct (apply_items E (set_ps w L ps0) L r (pipe_pairs E (b_cls bk) (b_user bk) lfmt)) as [w3 res]. simpl in Hn3.
+  assert (H3 : nest0 w3) by (apply (nest0_ext w w3 Hn3 Hn)).
+  destruct res as [r'|e]; simpl; [|exact H3].
+  pose proof (conv_conds_nest E (b_cls bk) (r_dets r') (finish_query E (b_cls bk) (ps_state (w_ps w3 L))) (r_conds r') w3) as Hn4.
+  destruct (conv_conds E (b_cls bk) (r_dets r') (finish_query E (b_cls bk) (ps_state (w_ps w3 L))) w3 (r_conds r')) as [w4 qs].
+  simpl in Hn4. assert (H4 : nest0 w4) by (apply (nest0_ext w3 w4 Hn4 H3)).
+  destruct qs as [l|e|e]; simpl; try exact H4.
+  pose proof (post_all_nest0 (pipe_pairs E (b_cls bk) (b_user bk) lfmt) L r' (map (finalize fmt (ps_state (w_ps w3 L)) r') l) w4 H4) as H5.
+  destruct (post_all w4 L r' (map (finalize fmt (ps_state (w_ps w3 L)) r') l) (pipe_pairs E (b_cls bk) (b_user bk) lfmt)) as [w5 l'].
+  exact H5.
 Qed.
 
 (* ---------- init ---------- *)
@@ -420,17 +605,17 @@ Lemma load_wf E w r : wf E w -> wf E (load w r).
 Proof. intros H. exact H. Qed.
 
 Lemma frame_rule E w b bk fmt r :
-  wf E w -> nth_error (w_bks w) b = Some bk -> owns_ok E w bk = true -> fmt_ok bk fmt = true ->
+  wf E w -> nest0 w -> nth_error (w_bks w) b = Some bk -> owns_ok E w bk = true -> fmt_ok bk fmt = true ->
   out_obs (snd (step E w (OConvRule b r fmt))) =
   ideal_obs_rule E (b_cls bk) (b_user bk) (b_collect bk) (b_opts bk) fmt r.
 Proof.
-  intros Hwf Hb Hown Hfmt. simpl. rewrite Hb. unfold conv_rule_raw, ideal_obs_rule.
+  intros Hwf Hn0 Hb Hown Hfmt. simpl. rewrite Hb. unfold conv_rule_raw, ideal_obs_rule.
   destruct (b_last bk) as [[L f]|] eqn:El.
   - unfold fmt_ok in Hfmt. rewrite El in Hfmt. apply N.eqb_eq in Hfmt. subst f.
     assert (Ho : owned E (load w r) bk L fmt) by (apply (owns_ok_owned E w bk L fmt El Hown)).
     assert (Hpv : w_pvars (load w r) L = init_vars E (b_cls bk) (b_user bk) (b_opts bk) fmt).
     { destruct Hwf as [_ [_ Hl]]. apply (Hl b bk L fmt Hb El). }
-    destruct (conv_with_ideal E (load w r) L fmt bk fmt r (load_wf E w r Hwf) Ho Hpv) as [Hq [Hps [_ [_ [Hbk _]]]]].
+    destruct (conv_with_ideal E (load w r) L fmt bk fmt r (load_wf E w r Hwf) Hn0 Ho Hpv) as [Hq [Hps [_ [_ [Hbk _]]]]].
     destruct (conv_with E (load w r) L fmt bk fmt r) as [w1 q]. simpl in *.
     assert (Hsnap : snap w1 b = Some (w_ps w1 L)).
     { apply (snap_set w1 b bk L fmt); [rewrite Hbk; exact Hb | exact El]. }
@@ -440,7 +625,7 @@ Proof.
     assert (Hwf0 : wf E w0) by (apply init_wf; exact Hwf).
     pose proof (init_owned E (load w r) b bk fmt) as Ho.
     pose proof (init_pvars E (load w r) b bk fmt) as Hpv.
-    destruct (conv_with_ideal E w0 (w_next (load w r)) fmt bk fmt r Hwf0 Ho Hpv) as [Hq [Hps [_ [_ [Hbk _]]]]].
+    destruct (conv_with_ideal E w0 (w_next (load w r)) fmt bk fmt r Hwf0 Hn0 Ho Hpv) as [Hq [Hps [_ [_ [Hbk _]]]]].
     fold w0. destruct (conv_with E w0 (w_next (load w r)) fmt bk fmt r) as [w1 q]. simpl in Hq, Hps, Hbk.
     assert (Hsnap : snap w1 b = Some (w_ps w1 (w_next (load w r)))).
     { unfold snap. rewrite Hbk. unfold w0, init_pipeline. simpl.
@@ -451,19 +636,19 @@ Qed.
 
 (* convert(): the pipeline object is rebuilt first, so nothing has to be assumed about owner links *)
 Lemma conv_rules_ideal E b fmt collect L cls user opts : forall rs w acc errs,
-  wf E w ->
+  wf E w -> nest0 w ->
   (exists bk, nth_error (w_bks w) b = Some bk /\ b_last bk = Some (L, fmt) /\ b_cls bk = cls /\ b_user bk = user
               /\ b_opts bk = opts /\ owned E w bk L fmt) ->
   let '(w', q, errs') := conv_rules E w b fmt collect rs acc errs in
   {| o_res := q; o_errs := errs'; o_snap := snap w' b |} = ideal_rules E cls user collect opts fmt rs acc errs (w_ps w L).
 Proof.
-  induction rs as [|r rs IH]; intros w acc errs Hwf [bk [Hb [Hl [Hc [Hu [Hop Ho]]]]]]; simpl.
+  induction rs as [|r rs IH]; intros w acc errs Hwf Hn0 [bk [Hb [Hl [Hc [Hu [Hop Ho]]]]]]; simpl.
   - rewrite (snap_set w b bk L fmt Hb Hl). reflexivity.
   - rewrite Hb. unfold conv_rule_raw. rewrite Hl.
     assert (Hpv : w_pvars w L = init_vars E (b_cls bk) (b_user bk) (b_opts bk) fmt).
     { destruct Hwf as [_ [_ Hls]]. apply (Hls b bk L fmt Hb Hl). }
-    destruct (conv_with_ideal E w L fmt bk fmt r Hwf Ho Hpv) as [Hq [Hps [Hwf1 [Hown1 [Hbk1 _]]]]].
-    destruct (conv_with E w L fmt bk fmt r) as [w1 q]. simpl in Hq, Hps, Hwf1, Hown1, Hbk1.
+    destruct (conv_with_ideal E w L fmt bk fmt r Hwf Hn0 Ho Hpv) as [Hq [Hps [Hwf1 [Hown1 [Hbk1 [_ [_ Hn1]]]]]]].
+    destruct (conv_with E w L fmt bk fmt r) as [w1 q]. simpl in Hq, Hps, Hwf1, Hown1, Hbk1, Hn1.
     rewrite Hc, Hu, Hop in Hq, Hps.
     destruct (ideal_rule E cls user opts fmt fmt r) as [ps q']. simpl in Hq, Hps. subst q' ps.
     assert (Hex : exists bk0, nth_error (w_bks w1) b = Some bk0 /\ b_last bk0 = Some (L, fmt) /\ b_cls bk0 = cls
@@ -471,9 +656,9 @@ Proof.
     { exists bk. rewrite Hbk1. repeat split; try assumption. intros p Hp. rewrite Hown1. apply Ho. exact Hp. }
     assert (Hsnap : snap w1 b = Some (w_ps w1 L)) by (apply (snap_set w1 b bk L fmt); [rewrite Hbk1; exact Hb | exact Hl]).
     destruct q as [l|e|e].
-    + apply (IH w1 (acc ++ l) errs Hwf1 Hex).
+    + apply (IH w1 (acc ++ l) errs Hwf1 Hn1 Hex).
     + destruct collect.
-      * apply (IH w1 acc (errs ++ [e]) Hwf1 Hex).
+      * apply (IH w1 acc (errs ++ [e]) Hwf1 Hn1 Hex).
       * rewrite Hsnap. reflexivity.
     + rewrite Hsnap. reflexivity.
 Qed.
@@ -484,12 +669,17 @@ Proof. induction rs as [|r rs IH]; intros w; simpl; [repeat split | apply (IH (l
 Lemma fold_load_wf E rs : forall w, wf E w -> wf E (fold_left load rs w).
 Proof. induction rs as [|r rs IH]; intros w H; simpl; [exact H | apply IH; apply load_wf; exact H]. Qed.
 
+Lemma fold_load_nest rs : forall w, w_nest (fold_left load rs w) = w_nest w.
+Proof. induction rs as [|r rs IH]; intros w; simpl; [reflexivity | rewrite IH; reflexivity]. Qed.
+
 Lemma frame_coll E w b bk fmt rs :
-  wf E w -> nth_error (w_bks w) b = Some bk ->
+  wf E w -> nest0 w -> nth_error (w_bks w) b = Some bk ->
   out_obs (snd (step E w (OConvColl b rs fmt))) =
   ideal_obs_coll E (b_cls bk) (b_user bk) (b_collect bk) (b_opts bk) fmt rs.
 Proof.
-  intros Hwf Hb. simpl. rewrite Hb.
+  intros Hwf Hn0 Hb. simpl. rewrite Hb.
+  assert (Hnl : nest0 (init_pipeline E (fold_left load rs w) b bk fmt)).
+  { intros i. simpl. rewrite fold_load_nest. apply Hn0. }
   set (wl := fold_left load rs w). destruct (fold_load_frame rs w) as [F1 [F2 F3]]. fold wl in F1, F2, F3.
   set (w0 := init_pipeline E wl b bk fmt).
   assert (Hwf0 : wf E w0) by (apply init_wf; apply fold_load_wf; exact Hwf).
@@ -500,7 +690,7 @@ Proof.
   { exists bk0. split; [|repeat split].
     - unfold w0, init_pipeline. simpl. eapply nth_error_set_nth. rewrite F3. exact Hb.
     - apply (init_owned E wl b bk fmt). }
-  pose proof (conv_rules_ideal E b fmt (b_collect bk) (w_next wl) (b_cls bk) (b_user bk) (b_opts bk) rs w0 [] [] Hwf0 Hex) as H.
+  pose proof (conv_rules_ideal E b fmt (b_collect bk) (w_next wl) (b_cls bk) (b_user bk) (b_opts bk) rs w0 [] [] Hwf0 Hnl Hex) as H.
   destruct (conv_rules E w0 b fmt (b_collect bk) rs [] []) as [[w1 q] errs]. simpl.
   rewrite H. unfold ideal_obs_coll.
   assert (Hps : w_ps w0 (w_next wl) = ps0) by (unfold w0, init_pipeline; simpl; rewrite Nat.eqb_refl; reflexivity).
@@ -559,20 +749,57 @@ Proof.
   specialize (IH w1 H1). destruct (run E w1 ops) as [w2 xs]. exact IH.
 Qed.
 
+Lemma conv_rule_raw_nest0 E w b bk fmt r : nest0 w -> nest0 (fst (conv_rule_raw E w b bk fmt r)).
+Proof.
+  intros H. unfold conv_rule_raw. destruct (b_last bk) as [[L f]|]; apply conv_with_nest0; exact H.
+Qed.
+Lemma conv_rules_nest0 E b fmt collect : forall rs w acc errs, nest0 w ->
+  nest0 (fst (fst (conv_rules E w b fmt collect rs acc errs))).
+Proof.
+  induction rs as [|r rs IH]; intros w acc errs H; simpl; [exact H|].
+  destruct (nth_error (w_bks w) b) as [bk|]; [|exact H].
+  pose proof (conv_rule_raw_nest0 E w b bk fmt r H) as H1. destruct (conv_rule_raw E w b bk fmt r) as [w1 q]. simpl in H1.
+  destruct q as [l|e|e]; [apply IH; exact H1 | destruct collect; [apply IH; exact H1 | exact H1] | exact H1].
+Qed.
+Lemma step_nest0 E w o : nest0 w -> nest0 (fst (step E w o)).
+Proof.
+  intros H. destruct o as [r|cls user collect opts|b fmt|b rs fmt|b r fmt]; simpl.
+  - exact H.
+  - exact H.
+  - destruct (nth_error (w_bks w) b); simpl; exact H.
+  - destruct (nth_error (w_bks w) b) as [bk|]; simpl; [|exact H].
+    assert (H0 : nest0 (init_pipeline E (fold_left load rs w) b bk fmt)).
+    { intros i. simpl. rewrite fold_load_nest. apply H. }
+    pose proof (conv_rules_nest0 E b fmt (b_collect bk) rs _ [] [] H0) as H1.
+    destruct (conv_rules E (init_pipeline E (fold_left load rs w) b bk fmt) b fmt (b_collect bk) rs [] []) as [[w1 q] errs].
+    exact H1.
+  - destruct (nth_error (w_bks w) b) as [bk|]; simpl; [|exact H].
+    pose proof (conv_rule_raw_nest0 E (load w r) b bk fmt r H) as H1.
+    destruct (conv_rule_raw E (load w r) b bk fmt r) as [w1 q]. exact H1.
+Qed.
+Lemma run_nest0 E : forall ops w, nest0 w -> nest0 (fst (run E w ops)).
+Proof.
+  induction ops as [|o ops IH]; intros w H; simpl; [exact H|].
+  pose proof (step_nest0 E w o H) as H1. destruct (step E w o) as [w1 x]. simpl in H1.
+  specialize (IH w1 H1). destruct (run E w1 ops) as [w2 xs]. exact IH.
+Qed.
+Lemma init_nest0 : nest0 init.
+Proof. intros i. reflexivity. Qed.
+
 (* ---------- main theorems ---------- *)
 Theorem frame_rule_reachable E ops b bk fmt r :
   let w := fst (run E init ops) in
   nth_error (w_bks w) b = Some bk -> owns_ok E w bk = true -> fmt_ok bk fmt = true ->
   out_obs (snd (step E w (OConvRule b r fmt))) =
   ideal_obs_rule E (b_cls bk) (b_user bk) (b_collect bk) (b_opts bk) fmt r.
-Proof. intros w. apply frame_rule. apply run_wf. apply init_world_wf. Qed.
+Proof. intros w. apply frame_rule; [apply run_wf; apply init_world_wf | apply run_nest0; apply init_nest0]. Qed.
 
 Theorem frame_coll_reachable E ops b bk fmt rs :
   let w := fst (run E init ops) in
   nth_error (w_bks w) b = Some bk ->
   out_obs (snd (step E w (OConvColl b rs fmt))) =
   ideal_obs_coll E (b_cls bk) (b_user bk) (b_collect bk) (b_opts bk) fmt rs.
-Proof. intros w. apply frame_coll. apply run_wf. apply init_world_wf. Qed.
+Proof. intros w. apply frame_coll; [apply run_wf; apply init_world_wf | apply run_nest0; apply init_nest0]. Qed.
 
 (* the same probe in a world where nothing has happened: one new backend of the same configuration *)
 Definition fresh_world (E : env) (bk : backend) : world :=
@@ -588,6 +815,7 @@ Proof.
   apply (frame_rule E (fresh_world E bk) 0
            {| b_cls := b_cls bk; b_user := b_user bk; b_collect := b_collect bk; b_opts := b_opts bk; b_last := None |} fmt r).
   - apply (step_wf E init). apply init_world_wf.
+  - apply (step_nest0 E init). apply init_nest0.
   - reflexivity.
   - reflexivity.
   - reflexivity.
@@ -603,6 +831,7 @@ Proof.
   apply (frame_coll E (fresh_world E bk) 0
            {| b_cls := b_cls bk; b_user := b_user bk; b_collect := b_collect bk; b_opts := b_opts bk; b_last := None |} fmt rs).
   - apply (step_wf E init). apply init_world_wf.
+  - apply (step_nest0 E init). apply init_nest0.
   - reflexivity.
 Qed.
 
@@ -612,9 +841,10 @@ Theorem invariant_reachable E ops :
   (forall c, w_tpl w c = tpl0) /\ (forall k t, lookup k (w_cache w) = Some t -> e_parse E k = Some t) /\
   (forall i it d v, w_vc w i = Some v -> valid_pair E i it -> i_tr it = TFile d -> e_src E d = Ok v) /\
   (forall b bk L f, nth_error (w_bks w) b = Some bk -> b_last bk = Some (L, f) ->
-     w_pvars w L = init_vars E (b_cls bk) (b_user bk) (b_opts bk) f).
+     w_pvars w L = init_vars E (b_cls bk) (b_user bk) (b_opts bk) f) /\
+  (forall i, w_nest w i = ([], [])).
 Proof.
   intros w. destruct (run_wf E ops init (init_world_wf E)) as [[H1 H2] [H3 H4]].
   split; [exact H1|]. split; [exact H2|]. split; [exact H3|].
-  intros b bk L f Hb Hl. apply (H4 b bk L f Hb Hl).
+  split; [intros b bk L f Hb Hl; apply (H4 b bk L f Hb Hl) | apply run_nest0; apply init_nest0].
 Qed.
